@@ -337,7 +337,68 @@ fn balances_area(ctx: &mut Ctx) {
     }
 }
 
+/// Transaction shapes: the fee / input / output configuration around the program. Every subset of {base-asset coin,
+/// other-asset coin, base-asset message coin, data message (retryable)} as inputs, every subset of {change of the base
+/// asset, change of the other asset, coin output, variable output} as outputs, max fee 0 and non-zero, and scripts that
+/// return, revert, panic (invalid opcode, memory violation) or run out of gas: `finalize_outputs` / `update_outputs`
+/// read the initial and the runtime balances on different paths for a reverted and a successful script.
+/// Oracle: no host panic, no Bug; check rejections are fine.
+fn tx_shapes(ctx: &mut Ctx) {
+    use fuel_tx::{Output, UtxoId};
+    use fuel_asm::op;
+    let params = ConsensusParameters::standard();
+    let base = *params.base_asset_id();
+    let other: fuel_types::AssetId = [0x11u8; 32].into();
+    let secret = fuel_crypto::SecretKey::try_from(fuel_types::Bytes32::from({ let mut s = [7u8; 32]; s[31] = 1; s })).expect("key");
+    let scripts: [(&str, Vec<Instruction>); 5] = [
+        ("ret", vec![op::ret(RegId::ONE)]),
+        ("rvrt", vec![op::rvrt(RegId::ONE)]),
+        ("invalid-opcode", vec![]), // the bytes ff ff ff ff, see below
+        ("memory-violation", vec![op::not(0x10, RegId::ZERO), op::lw(0x11, 0x10, 0)]),
+        ("out-of-gas", vec![op::ji(0)]),
+    ];
+    for max_fee in [0u64, 7] {
+        for ins in 1u8..16 {
+            for outs in 0u8..16 {
+                for (sname, script) in &scripts {
+                    let tag = format!("tx-shape max_fee={max_fee} inputs[base-coin,other-coin,message-coin,data-message]={ins:04b} outputs[change-base,change-other,coin,variable]={outs:04b} script={sname}");
+                    let mut bytes: Vec<u8> = script.iter().copied().collect();
+                    if *sname == "invalid-opcode" { bytes = vec![0xff, 0xff, 0xff, 0xff]; }
+                    let mut b = TransactionBuilder::script(bytes, vec![]);
+                    b.with_params(params.clone());
+                    b.script_gas_limit(500).max_fee_limit(max_fee);
+                    if ins & 1 != 0 { b.add_unsigned_coin_input(secret, UtxoId::new([1u8; 32].into(), 0), 100, base, Default::default()); }
+                    if ins & 2 != 0 { b.add_unsigned_coin_input(secret, UtxoId::new([2u8; 32].into(), 1), 100, other, Default::default()); }
+                    if ins & 4 != 0 { b.add_unsigned_message_input(secret, [3u8; 32].into(), [4u8; 32].into(), 100, vec![]); }
+                    if ins & 8 != 0 { b.add_unsigned_message_input(secret, [5u8; 32].into(), [6u8; 32].into(), 100, vec![1, 2, 3]); }
+                    if outs & 1 != 0 { b.add_output(Output::change([8u8; 32].into(), 0, base)); }
+                    if outs & 2 != 0 { b.add_output(Output::change([8u8; 32].into(), 0, other)); }
+                    if outs & 4 != 0 { b.add_output(Output::coin([9u8; 32].into(), 1, if ins & 2 != 0 { other } else { base })); }
+                    if outs & 8 != 0 { b.add_output(Output::variable(Default::default(), 0, Default::default())); }
+                    let tx = b.finalize();
+                    let checked = match ctx.guard(|| tx.clone().into_checked(Default::default(), &params).map_err(|e| format!("{e:?}"))) {
+                        Ok(Ok(c)) => c,
+                        Ok(Err(e)) => { ctx.count(&format!("tx-shape.rejected.{}", e.split(|c: char| !c.is_alphanumeric()).next().unwrap_or("?"))); continue; }
+                        Err(m) => { ctx.oracle_fail("host-panic-tx-shape-check", &tag, &m); continue; }
+                    };
+                    let ready = match ctx.guard(|| checked.into_ready(0, params.gas_costs(), params.fee_params(), None).map_err(|e| format!("{e:?}"))) {
+                        Ok(Ok(r)) => r,
+                        Ok(Err(_)) => { ctx.count("tx-shape.not-ready"); continue; }
+                        Err(m) => { ctx.oracle_fail("host-panic-tx-shape-ready", &tag, &m); continue; }
+                    };
+                    let mut vm: Vm = Interpreter::with_storage(MemoryInstance::new(), MemoryStorage::default(), fuel_vm::interpreter::InterpreterParams::new(0, &params));
+                    let r = ctx.guard(|| vm.transact(ready).map(|_| ()).map_err(|e| g::err_name(&e)));
+                    ctx.count(&format!("tx-shape.run.{sname}.max_fee={max_fee}"));
+                    classify(ctx, &tag, "tx-shape", r);
+                    ctx.distinct(tag.as_bytes());
+                }
+            }
+        }
+    }
+}
+
 pub fn run(ctx: &mut Ctx) {
+    tx_shapes(ctx);
     balances_area(ctx);
     receipt_limit(ctx);
     opcode_boundaries(ctx);
